@@ -46,6 +46,10 @@ def regenerate(ctx):
     _GEN["rules"] = rules
     _GEN["rule_problems"] = probs
     _GEN["abstract"] = getattr(tr.rule_cfgs, "abstract", [])
+    text, memos, probs = tr.evaluator_memos(common.REPO)
+    ctx.gen("EvaluatorCache", text)
+    _GEN["memos"] = memos
+    _GEN["memo_problems"] = probs
 
 
 # ----------------------------------------------------------------------------------------------- op catalogue
@@ -64,7 +68,11 @@ FAMILIES = {
     "rw-flatten-pad": ["m_rw_flatten", "m_rw_flatten_b", "m_rw_padconv", "m_rw_padconv_b", "m_rw_padconv_nofire"],
     "rw-norm": ["m_rw_materialize", "m_rw_materialize_b", "m_rw_layernorm", "m_rw_layernorm_b", "m_rw_rmsnorm", "m_rw_rmsnorm_b"],
     "optimize": ["m_opt_fold", "m_opt_fold_b", "m_opt_if", "m_pass_fold", "m_pass_nofold", "m_pass_if", "x_opt_bad"],
-    "convert-pattern": ["m_convert_up", "m_convert_up_b", "x_convert_bad", "x_bad_pattern", "m_rw_operator_pattern"],
+    "convert-pattern": ["m_convert_up", "m_convert_up_b", "m_convert_up_c", "x_convert_bad", "x_bad_pattern", "m_rw_operator_pattern"],
+    # the same foldable op types at different opset versions / the same function identifier with different bodies
+    "optimize-versions": ["m_opt_axes_v11", "m_opt_axes_v12", "m_opt_axes_v13", "m_opt_axes_v18", "m_opt_misc_v9", "m_opt_misc_v13",
+                          "m_opt_misc_v18", "m_opt_func_a", "m_opt_func_b", "m_opt_func_a_v13", "m_rw_default_v13"],
+    "script-versions": ["s_opset15", "s_opset18", "s_domain_v1", "s_domain_v2"],
 }
 
 # hand-made histories aimed at the mechanisms named in the property's anchors (each op is a target for its prefix)
@@ -81,6 +89,13 @@ FIXED_SEQUENCES = [
     ["x_bad_script_unbound", "s_loop3", "s_loop1", "s_while2", "s_loop_if", "x_bad_script_unbound", "s_loop1", "s_loop3"],
     ["s_global_mutated", "s_consts", "s_global_mutated_callee", "s_calls", "s_plain", "s_global_mutated", "s_calls", "s_consts"],
     ["s_calls", "s_plain", "s_consts", "s_repeat", "s_if1", "s_loop1", "m_rw_default", "m_opt_fold"],
+    # process-wide tables hit with conflicting keys, both orders: (domain, op) at several opset versions,
+    # one function identifier with two bodies, one Opset domain at two versions
+    ["m_opt_axes_v11", "m_opt_axes_v18", "m_opt_axes_v12", "m_opt_axes_v13", "m_opt_misc_v9", "m_opt_misc_v18", "m_opt_misc_v13", "m_opt_axes_v11"],
+    ["m_opt_axes_v18", "m_opt_axes_v11", "m_opt_axes_v13", "m_opt_axes_v12", "m_opt_misc_v13", "m_opt_misc_v9", "m_opt_fold", "m_opt_axes_v18"],
+    ["m_opt_func_a", "m_opt_func_b", "m_opt_func_a_v13", "m_opt_func_a", "m_rw_default_v13", "m_rw_default", "m_rw_default_v13", "m_opt_func_b"],
+    ["s_opset15", "s_opset18", "s_domain_v1", "s_domain_v2", "s_opset15", "s_domain_v1", "m_convert_up_c", "m_convert_up"],
+    ["s_domain_v2", "s_domain_v1", "s_opset18", "s_opset15", "m_convert_up", "m_convert_up_c", "m_opt_misc_v18", "m_opt_misc_v9"],
 ]
 
 # equalities between different operations required by the property text
@@ -173,6 +188,11 @@ def part_translators(ctx):
                    "converted has a recognised shape", not _GEN.get("site_problems"), "; ".join(_GEN.get("site_problems", [])[:3]))
     ctx.obligation("translator rule_cfgs: check/rewrite of every rule class and FoldConstantsPass.call translated (fail-closed)",
                    not _GEN.get("rule_problems"), "; ".join(_GEN.get("rule_problems", [])[:3]))
+    for p in _GEN.get("memo_problems", []):
+        ctx.tie_broken("translator", "evaluator_memos", p)
+    ctx.obligation("translator evaluator_memos: state of the module-level ReferenceEvaluator and cache decorators in the anchored files "
+                   "have a recognised shape (fail-closed)", not _GEN.get("memo_problems"), "; ".join(_GEN.get("memo_problems", [])[:3]))
+    ctx.cover(memo_tables=[f"{m['owner']}.{m['field']} key={m['key']} uses={m['fun']}" for m in _GEN.get("memos", [])])
     # the translator must still see the mechanisms the property's anchors name (not degenerate)
     by = {r["name"]: r for r in rules}
     anchors = {
@@ -209,9 +229,20 @@ def part_translators(ctx):
 
 def part_rule_proofs(ctx):
     """diagnostics first (which classes fail), then the theorems."""
-    ok, log = ctx.build(["Gen/RuleCfgs.vo", "Gen/ConverterSites.vo", "Determinism/MustDefProofs.vo", "Determinism/PermProofs.vo"])
+    ok, log = ctx.build(["Gen/RuleCfgs.vo", "Gen/ConverterSites.vo", "Gen/EvaluatorCache.vo", "Determinism/MustDefProofs.vo",
+                         "Determinism/PermProofs.vo", "Determinism/KeyedCacheProofs.vo"])
     if not ok:
         return []
+    okm, valsm, rawm = ctx.coq_eval(["OV.Determinism.KeyedCache", "OV.Gen.EvaluatorCache"], "Eval vm_compute in (bad_memos EvaluatorCache.memos).")
+    if not okm:
+        ctx.tie_broken("proof", "bad_memos evaluation", rawm[-600:])
+    else:
+        badm = re.findall(r'"([^"]+)"', valsm[0])
+        ctx.obligation(f"memo tables: the key of each of the {len(_GEN.get('memos', []))} memo tables found in the sources contains every parameter "
+                       "the memoizing method uses (vm_compute)", not badm, "key too coarse: " + ", ".join(badm))
+        for b in badm:
+            ctx.tie_broken("proof", "memo_ok " + b, "a process-wide memo table is keyed by fewer parameters than the memoized computation uses: "
+                                                    "the first request with a given key decides what later requests get")
     ok, vals, raw = ctx.coq_eval(["OV.Determinism.MustDef", "OV.Gen.RuleCfgs"],
                                  "Eval vm_compute in (bad_rules RuleCfgs.all).\nEval vm_compute in (bad_rules RuleCfgs.passes).\n"
                                  "Eval vm_compute in (List.length RuleCfgs.all).")
@@ -501,6 +532,8 @@ def run(ctx):
                "object a configuration field refers to by code outside the class is not modelled")
     ctx.assume("eager execution of a script function re-reads module globals at call time (documented in Converter._eval_constant_expr); "
                "only the generated protos and the protos embedded for callees are compared after a post-decoration mutation")
+    ctx.assume("what a memoizing method computes on a miss depends only on the parameters the method mentions (depends_only_on) and on "
+               "process-constant state (the onnx reference-op registry)")
     ctx.trust("translators harness/c14_translate.py (python ast, fail-closed) -- trusted to emit a faithful image of the recognised shapes; "
               "cross-checked by the run-time field trace of the real rule objects")
     part_translators(ctx)
